@@ -16,7 +16,10 @@ import (
 	"reflect"
 	"sort"
 	"strings"
+	"time"
 
+	"github.com/agglayer/aggkit/aggsender/query"
+	aggsendertypes "github.com/agglayer/aggkit/aggsender/types"
 	bridgetypes "github.com/agglayer/aggkit/bridgeservice/types"
 	"github.com/agglayer/aggkit/bridgesync"
 	"github.com/agglayer/aggkit/db"
@@ -29,17 +32,19 @@ import (
 func init() { scenarios["bridgestore"] = Scenario{Gen: bsGen, Replay: bsReplay} }
 
 type bsWorld struct {
-	dir    string
-	path   string
-	p      *bridgesync.VerifProcessor
-	f      *bridgesync.BridgeSync
-	ctl    *sql.DB // second connection: fault control
-	lines  []string
+	dir   string
+	path  string
+	p     *bridgesync.VerifProcessor
+	f     *bridgesync.BridgeSync
+	ctl   *sql.DB // second connection: fault control
+	lines []string
 	// reference bookkeeping (monitors)
-	survivors []string // `blk` lines (fault-free form) of the blocks that were committed and not reorged away
-	survNums  []uint64
+	survivors    []string // `blk` lines (fault-free form) of the blocks that were committed and not reorged away
+	survNums     []uint64
 	rmLegacySeen bool
 	reorgs       int
+	q            aggsendertypes.BridgeQuerier
+	qMismatch    string
 }
 
 var bsFaultTables = []string{"block", "bridge", "claim", "token_mapping", "legacy_token_migration", "root", "rht"}
@@ -70,6 +75,7 @@ func (w *bsWorld) open(r *Run, fresh bool) {
 	must(err)
 	w.p = p
 	w.f = p.Facade(0)
+	w.q = query.NewBridgeDataQuerier(lg(), w.f, time.Millisecond)
 	if fresh {
 		w.ctl, err = db.NewSQLiteDB(w.path)
 		must(err)
@@ -281,6 +287,11 @@ func (w *bsWorld) query(ws []string) string {
 		return fmt.Sprintf("%s total=%d", bsDigest(it), total)
 	case "exitroot":
 		rt, err := w.f.GetExitRootByIndex(ctx, uint32(u(ws[2])))
+		// the aggsender reads the same thing through its bridge data querier, which lives as long as the process: whatever
+		// happened in between (other lookups, reorgs), it must answer what the syncer answers now
+		if qh, qerr := w.q.GetExitRootByIndex(ctx, uint32(u(ws[2]))); (qerr == nil) != (err == nil) || (err == nil && qh != rt.Hash) {
+			w.qMismatch = fmt.Sprintf("exit root for deposit count %s through the aggsender's bridge data querier is %s (err=%v), the syncer answers %s (err=%v)", ws[2], qh.Hex(), qerr, rt.Hash.Hex(), err)
+		}
 		if err != nil {
 			if errors.Is(err, db.ErrNotFound) {
 				return "notfound"
@@ -431,6 +442,10 @@ func (w *bsWorld) exec(r *Run, line string) string {
 		obs = "ok"
 	case "q":
 		obs = w.query(ws)
+		if w.qMismatch != "" {
+			r.Fail("[C03,C04] "+w.qMismatch, append([]string{"new"}, w.lines...))
+			w.qMismatch = ""
+		}
 	}
 	r.Emit(line, obs)
 	return obs
@@ -441,8 +456,16 @@ func bsProbe(maxBlock uint64, nLeaves uint64) []string {
 	qs := []string{"q lpb", fmt.Sprintf("q bridges 0 %d", maxBlock), fmt.Sprintf("q claims 0 %d", maxBlock),
 		"q bridgespaged 1 100", "q bridgespaged 2 3", "q claimspaged 1 100", "q claimspaged 2 2", "q tms 1 100", "q legacy 1 100", "q legacy 2 1",
 		fmt.Sprintf("q bridges %d %d", maxBlock/2, maxBlock), fmt.Sprintf("q claims 1 %d", maxBlock/2)}
+	// the newest deposit count first and last: a reader that remembers its previous lookup meets the same index again
+	// right after whatever happened in between (a reorg that replaced that deposit, for instance)
+	if nLeaves > 0 {
+		qs = append(qs, fmt.Sprintf("q exitroot %d", nLeaves-1))
+	}
 	for i := uint64(0); i < nLeaves+1; i++ {
 		qs = append(qs, fmt.Sprintf("q exitroot %d", i))
+	}
+	if nLeaves > 0 {
+		qs = append(qs, fmt.Sprintf("q exitroot %d", nLeaves-1))
 	}
 	return qs
 }
